@@ -7,7 +7,8 @@ import json, os, re, shutil, subprocess, sys
 
 ID, N, breaks, needs = sys.argv[1], sys.argv[2], sys.argv[3], sys.argv[4]
 props = sys.argv[5:]
-W = "/tmp/mut/%s" % ID
+W = "%s/%s" % (os.environ.get("MUT_ROOT", "/tmp/mut"), ID)
+TAG = os.environ.get("SEED_TAG", "")
 out = subprocess.run(["/verif/confirm_seed.sh", ID, N], text=True, stdout=subprocess.PIPE, stderr=subprocess.STDOUT).stdout
 print(out[-900:])
 sec = re.split(r"== (demo without patch|demo with patch|suite with patch)\n", out)
@@ -28,7 +29,7 @@ if not ok:
 r = subprocess.run(["/verif/seedtest.py", "%s/deliver/patch%s.diff" % (W, N)] + props, text=True, stdout=subprocess.PIPE, stderr=subprocess.STDOUT)
 print(r.stdout[-1500:])
 res = json.loads(r.stdout.strip().splitlines()[-1])
-d = "/verif/seeded/%s-%s" % (ID, N)
+d = "/verif/seeded/%s-%s%s" % (ID, TAG, N)
 os.makedirs(d, exist_ok=True)
 shutil.copy("%s/deliver/patch%s.diff" % (W, N), d + "/patch.diff")
 shutil.copy("%s/deliver/demo%s.rs" % (W, N), d + "/demo.rs")
@@ -37,7 +38,7 @@ if os.path.exists(W + "/deliver/demo-cargo.diff"):
 if os.path.exists(W + "/deliver/notes.md"):
     shutil.copy(W + "/deliver/notes.md", d + "/author-notes.md")
 meta = {
-    "id": "%s-%s" % (ID, N), "property": ID, "breaks": breaks, "needs_to_manifest": needs,
+    "id": "%s-%s%s" % (ID, TAG, N), "property": ID, "breaks": breaks, "needs_to_manifest": needs,
     "confirmed_in_scratch_worktree": confirmed,
     "demo_features": os.environ.get("DEMO_FEATURES", ""),
     "how_confirmed": "confirm_seed.sh: demo dropped into crates/tests/tests, `cargo test --offline -p walrus-tests --test demoN` without and with the patch; `cargo test --workspace --no-fail-fast --offline` with the patch",
